@@ -112,7 +112,7 @@
 (assert (forall ((a Int) (b Int)) (! (=> (= a 1) (= (imul a b) b)) :pattern ((imul a b)))))
 (assert (forall ((a Int) (b Int)) (! (=> (not (= (imul a b) 0)) (and (not (= a 0)) (not (= b 0)))) :pattern ((imul a b)))))
 (assert (forall ((a Int) (b Int)) (! (=> (and (> a 1) (> b 1)) (and (> (imul a b) a) (> (imul a b) b))) :pattern ((imul a b)))))
-(assert (forall ((a Int) (b Int)) (! (=> (and (> a 0) (> b 0)) (<= (bitlen (imul a b)) (+ (bitlen a) (bitlen b)))) :pattern ((imul a b)))))
+(assert (forall ((a Int) (b Int)) (! (=> (and (> a 0) (> b 0)) (and (<= (bitlen (imul a b)) (+ (bitlen a) (bitlen b))) (>= (bitlen (imul a b)) (bitlen a)) (>= (bitlen (imul a b)) (bitlen b)))) :pattern ((bitlen (imul a b))))))
 
 ; ----- hash input framing (common/hash.go) -----
 ; bs of a single element
